@@ -305,6 +305,21 @@ def ssl2_ch_enc(ciphers, sid, ch):
     return hx(b)
 
 
+def ssl2_big_record(n):
+    """an SSL 2.0 record whose body has n bytes (a client hello with a long session id): compose, parse back, compare"""
+    from cryptoparser.tls.record import SslRecord
+    from cryptoparser.tls.subprotocol import SslHandshakeClientHello
+    n = int(n)
+    fixed = 1 + 2 + 2 + 2 + 2 + 3 + 16      # type, version, three lengths, one cipher kind, challenge
+    hello = SslHandshakeClientHello(_ssl2_kinds('65664'), bytes(i % 251 for i in range(n - fixed)), bytes(range(16)))
+    rec = SslRecord(hello)
+    b = bytes(rec.compose())
+    back = parse_back(SslRecord, b)
+    if bytes(back.message.compose()) != bytes(hello.compose()):
+        raise RoundTripError('parse does not recover the encoded message')
+    return '%d %s' % (len(b), hx(b[:2]))
+
+
 def ssl2_sh_enc(hit, ct, cert, ciphers, cid):
     from cryptoparser.tls.subprotocol import SslHandshakeServerHello
     kinds, ce, ci = _ssl2_kinds(ciphers), bytes.fromhex('' if cert == '-' else cert), bytes.fromhex('' if cid == '-' else cid)
@@ -1357,7 +1372,7 @@ COMMANDS = {
     'rsablob': blob_cmd(rsa_blob), 'dssblob': blob_cmd(dss_blob), 'edblob': blob_cmd(ed_blob), 'ecblob': blob_cmd(ec_blob),
     'keytag': keytag_cmd, 'dsenc': ds_enc, 'mxenc': mx_enc, 'nameenc': name_enc, 'txtenc': txt_enc, 'rrsigenc': rrsig_enc,
     'dnskeyrsaenc': dnskey_rsa_enc, 'dnskeyecenc': dnskey_ec_enc, 'dnskeyedenc': dnskey_ed_enc, 'dnskeydec': dnskey_dec,
-    'chenc': ch_enc, 'ssl2chenc': ssl2_ch_enc, 'ssl2shenc': ssl2_sh_enc, 'chdec': ch_dec, 'ja3impl': ja3_cmd, 'shenc': sh_enc, 'certenc': cert_enc, 'shdenc': shd_enc, 'certreqenc': certreq_enc, 'certreqdec': certreq_dec, 'certstenc': certst_enc, 'certstdec': certst_dec,
+    'chenc': ch_enc, 'ssl2chenc': ssl2_ch_enc, 'ssl2bigrec': ssl2_big_record, 'ssl2shenc': ssl2_sh_enc, 'chdec': ch_dec, 'ja3impl': ja3_cmd, 'shenc': sh_enc, 'certenc': cert_enc, 'shdenc': shd_enc, 'certreqenc': certreq_enc, 'certreqdec': certreq_dec, 'certstenc': certst_enc, 'certstdec': certst_dec,
     'recenc': rec_enc, 'alertenc': alert_enc, 'ccsenc': ccs_enc, 'extenc': ext_enc,
     'pframe': p_frame, 'xframe': x_frame, 'mframe': m_frame, 'cframe': c_frame,
     'popq': p_opq, 'copq': c_opq,
